@@ -320,10 +320,14 @@ IJ("C03.xq_x_reply", "C03", "h_xq_x_reply", XQ_CALLEES, harness="harness/h_iauth
    extra_props=("C02", "C04", "C05", "C07"), cbmc=XQ_UNW, assumptions=SET_ASSUME, bound="service table of 3 slots, names of <= 2 bytes, reply text <= 39 bytes", cls="bounded", timeout=1800, cost=20)
 
 PROPS["C06"] = dict(level="model_checking", explanation="query builder and password shape check by per-function postconditions over the ghost query log; bounded copies in the core handlers")
-IJ("C06.xq_check", "C06", "h_xq_check", XQ_CALLEES, harness="harness/h_iauth_xq.c", functions=["iauth_xquery_check", "iauth_xquery_user_info"],
-   extra_props=("C02", "C03"), cbmc=["--unwind", "9", "--unwindset", "bytes_eq.0:513,strcmp.0:5,strncmp.0:8,model_x_query.0:13,model_x_query.1:12,spec_username.0:13,spec_username.1:11,spec_username.2:11,spec_username.3:11,strncpy.0:13"],
-   assumptions=SET_ASSUME, bound="service table of 2 slots", cls="bounded", timeout=2400, cost=20, defines=["NSRV=2"], solver=os.environ.get("XQSOLVER", "minisat"), mem=24)
-
+for _t0 in range(4):
+    for _t1 in range(4):
+        IJ("C06.xq_check.t%d%d" % (_t0, _t1), "C06", "h_xq_check", XQ_CALLEES, harness="harness/h_iauth_xq.c", functions=["iauth_xquery_check", "iauth_xquery_user_info"],
+           extra_props=("C02", "C03"),
+           cbmc=["--unwind", "4", "--unwindset", "strcmp.0:5,strncmp.0:8,model_x_query.0:13,model_x_query.1:12,spec_username.0:13,spec_username.1:11,spec_username.2:11,spec_username.3:11,strncpy.0:13"],
+           unwind_rules=[("iauth_xquery_check", r"for \(ii = 0; ii < iauth_xquery_services.used", 3), ("h_xq_check", r"for \(k = 0; k < 8", 9), ("h_xq_check", r"for \(i = 0; i < NSRV", 3)],
+           assumptions=SET_ASSUME, bound="service table of 2 slots; one job per pair of service protocols (%d, %d)" % (_t0, _t1), cls="bounded", timeout=2400, cost=20,
+           defines=["NSRV=2", "SRV_STATIC", "SRV_T0=%d" % _t0, "SRV_T1=%d" % _t1], mem=16)
 PROPS["C09"] = dict(level="model_checking", explanation="single formatter iauth_send proved against the line format with the printf model; address text via C12; log channel separation in C18/C09.log")
 IO_UNW = ["--unwind", "14", "--unwindset", "put_str.0:41,fputs.0:130,iauth_send.0:5,memset.0:600"]
 C09_RULES = [("h_send", r"i < 128", 129), ("h_send", r"i < (40|IRC_NTOP_MAX)", 42), ("h_send", r"i < (11|12|6);", 13), ("h_send", r"f\[i\]", 14), ("h_send", r"i = (3|ADDR_MAX)", 42)]
@@ -344,8 +348,8 @@ IJ("C09.send.prefix.all", "C09", "h_send", SETM, harness="harness/h_iauth_io.c",
    defines=["KIND=12", "ADDR_MAX=8"], timeout=7200, cost=60, solver="kissat")
 for _p in ("C08", "C09"):
     IJ(_p + ".send_overlong", _p, "h_send_overlong", SETM, harness="harness/h_iauth_io.c", stubs=IAUTH_STUBS + ["stubs/stdout_model.c"], functions=["iauth_send"],
-       cbmc=["--unwind", "6", "--unwindset", "fputs.0:1201,memset.0:600"], unwind_rules=[("h_send_overlong", r"", 1502), ("vsnprintf", r"while \(\*s\)", 1502)],
-       cls="bounded", bound="one concrete 1500-byte argument (positions concrete)", timeout=1800, cost=6)
+       cbmc=["--unwind", "6", "--unwindset", "fputs.0:1201,memset.0:600"], unwind_rules=[("h_send_overlong", r"", 1202), ("vsnprintf", r"while \(\*s\)", 1102)],
+       cls="bounded", bound="one concrete 1100-byte argument (positions concrete)", timeout=1800, cost=6, mem=30)
 IJ("C04.routing_roundtrip", "C04", "h_routing_roundtrip", SETM, harness="harness/h_iauth_io.c", stubs=IAUTH_STUBS + ["stubs/stdout_model.c"],
    functions=["iauth_routing", "iauth_validate_request"], cbmc=IO_UNW, assumptions=SET_ASSUME + ["S2 strtol/strtoul are CBMC's library models"], timeout=1800, cost=10)
 IJ("C04.validate_any", "C04", "h_validate_any", SETM, harness="harness/h_iauth_io.c", stubs=IAUTH_STUBS + ["stubs/stdout_model.c"],
@@ -393,7 +397,7 @@ PROPS["C20"] = dict(level="model_checking", explanation="real module.c over ever
 
 def _c20_phase_jobs(tier, seed):
     out = []
-    for m in ((3,) if tier == "quick" else (3, 4)):
+    for m in ((2,) if tier == "quick" else (2, 3)):
         for e, fns in (("h_module_postinit", ["module_load_list", "module_dfs", "module_get"]), ("h_module_unload", ["module_close_all", "module_cleanup", "const_string_vector_remove", "module_get"])):
             out.append(dict(id="C20.%s.M%d" % (e[9:], m), prop="C20", cls="bounded",
                  bound="%d loaded stub modules, every dependency matrix (2^%d graphs incl. cycles and self loops)%s" % (m, m * m, "" if e == "h_module_postinit" else " that is acyclic"),
